@@ -105,7 +105,7 @@ def has_ref(v):
 
 PLACEHOLDER = '\x01REF%d\x01'
 REF_RE = re.compile(r'[@%][ \t]*(?P<name>[A-Za-z_][\w.]*(/[A-Za-z_][\w.]*)*)'
-                    r'(?P<call>[ \t]*\([ \t\n]*\))?')
+                    r'(?P<call>(\s|\\\n|#[^\n]*\n)*\((\s|\\\n|#[^\n]*\n)*\))?')
 
 
 def subst_refs(v, refs):
@@ -197,8 +197,11 @@ def check_nearmiss(case):
     # CPython 3.12.1: tokenize raises UnicodeDecodeError for a bare CR followed by a non-ASCII
     # character ('x = 1\rŠ'); an interpreter defect outside Gin
     raise OutOfDomain('bare CR with non-ASCII text (CPython tokenizer defect)')
-  src = 'c02probe.p = ' + text + '\n'
-  labels = ['kind:nearmiss', 'mut:' + case.get('mutation', '?')]
+  # the same text as a flat binding or as a member of a block: both must judge it alike
+  block = case.get('place') == 'block'
+  src = ('c02probe:\n  p = ' if block else 'c02probe.p = ') + text + '\n'
+  labels = ['kind:nearmiss', 'mut:' + case.get('mutation', '?'),
+            'nearmiss-place:' + ('block' if block else 'flat')]
   stmts = []
   try:
     with warnings.catch_warnings():
@@ -245,6 +248,7 @@ def check_nearmiss(case):
         except Exception:  # pylint: disable=broad-except
           pass
     raise Violation('wrong-exception-class', f'{type(e).__name__}: {e} for text {text!r}')
+  stmts = [x for x in stmts if not isinstance(x, config_parser.BlockDeclaration)]
   if len(stmts) != 1 or not isinstance(stmts[0], config_parser.BindingStatement):
     raise OutOfDomain('text spells more than one statement')
   b = stmts[0]
@@ -375,7 +379,8 @@ def _nearmiss(draw):
       else:
         text = base[:i] + base[i + 1:i + 2] + base[i:i + 1] + base[i + 2:]
   text = draw(st.sampled_from(WRAP)) % text
-  return {'kind': 'nearmiss', 'text': text, 'mutation': how}
+  return {'kind': 'nearmiss', 'text': text, 'mutation': how,
+          'place': draw(st.sampled_from(['flat', 'flat', 'block']))}
 
 
 def strategy():
@@ -383,8 +388,8 @@ def strategy():
 
 
 def sweep_whole(tier):
-  cases = [{'kind': 'nearmiss', 'text': w % t, 'mutation': 'whole'}
-           for t in WHOLE for w in sorted(set(WRAP))]
+  cases = [{'kind': 'nearmiss', 'text': w % t, 'mutation': 'whole', 'place': place}
+           for t in WHOLE for w in sorted(set(WRAP)) for place in ('flat', 'block')]
   return cases, True
 
 
